@@ -1,2 +1,3 @@
 //! Short reference models written from the RFC texts.
 pub mod ws;
+pub mod b64;
